@@ -157,7 +157,7 @@ pub fn jobs(tier: Tier) -> Vec<Job> {
                     let Some(mut case) = build_case(&name, spec, &db, &templates, &seq) else { continue };
                     case.env.beneficiary = beneficiary_of(role);
                     let bound = match (tier, seq.len()) {
-                        (Tier::Quick, 2) => 2,
+                        (Tier::Quick, 2) if spec == SpecId::CANCUN && seq.iter().any(|&t| t == 2 || t == 3) && f == Fee::Tip3 => 2,
                         (Tier::Quick, _) => 1,
                         (Tier::Thorough, 2) => 3,
                         (Tier::Thorough, _) => 2,
